@@ -473,6 +473,7 @@ impl C15 {
       skipped: false,
       case: serde_json::to_value(case).unwrap(),
       outcome_hash: oh,
+      site_pairs: Default::default(),
     }
   }
 }
